@@ -25,7 +25,9 @@ type globFlag uint
 
 var typeCbMap = map[string]func(os.FileMode) bool{
 	"dir":     os.FileMode.IsDir,
-	"regular": os.FileMode.IsRegular,
+	// As documented, symbolic links are considered to be regular files. (The
+	// mode comes from lstat, so links are never followed.)
+	"regular": func(m os.FileMode) bool { return m.IsRegular() || m&os.ModeSymlink != 0 },
 }
 
 const (
